@@ -1706,9 +1706,61 @@ fn soak(rounds: u64, millis: u64, readers: usize) -> i32 {
 
 // ------------------------------------------------------------------------------------ main
 
+/// Finding F9 (directed reproduction, public API only). Account A is held by the database with a
+/// balance, no nonce, no code AND storage {3: 9}. History: load A, commit "A received 1 wei" (revm
+/// promotes a Loaded code-less nonce-less account to InMemoryChange, whose storage is "known": slots
+/// not cached by then answer 0), read slot 3. revm's State and ParallelState answer 0. With one read
+/// of slot 3 through the shared `&self` interface before the commit - what a speculative worker does -
+/// ParallelState answers 9 afterwards. Several variants (slot, amount, number of speculative reads).
+fn promo() -> bool {
+    let a = Address::with_last_byte(0xA9);
+    let mut reproduced = false;
+    for (slot, val, credit, reads) in [(3u64, 9u64, 1u64, 1usize), (0, 42, 5, 2), (7, 1, 1, 1)] {
+        let mut db = MemDb::default();
+        db.basic.insert(a, AccountInfo { balance: U256::from(1), nonce: 0, code_hash: KECCAK_EMPTY, code: None, ..Default::default() });
+        db.storage.insert((a, U256::from(slot)), U256::from(val));
+        let db = Arc::new(db);
+        let touch = |info: AccountInfo| -> EvmState {
+            let mut account = Account::from(AccountInfo { balance: info.balance + U256::from(credit), ..info });
+            account.mark_touch();
+            let mut st = EvmState::default();
+            st.insert(a, account);
+            st
+        };
+        let mut r = State::builder().with_bundle_update().with_database_ref(db.clone()).build();
+        let info = r.basic(a).unwrap().unwrap();
+        r.commit(touch(info));
+        let rv = r.storage(a, U256::from(slot)).unwrap();
+        let mut p = ParallelState::new(db.clone(), true, false);
+        let info = p.basic(a).unwrap().unwrap();
+        p.commit(touch(info));
+        let pv = p.storage(a, U256::from(slot)).unwrap();
+        let mut q = ParallelState::new(db.clone(), true, false);
+        let info = q.basic(a).unwrap().unwrap();
+        let mut spec = U256::ZERO;
+        for _ in 0..reads {
+            spec = q.storage_ref(a, U256::from(slot)).unwrap();
+        }
+        q.commit(touch(info));
+        let qv = q.storage(a, U256::from(slot)).unwrap();
+        let rep = rv == pv && qv != pv;
+        println!("PROMO slot={slot} db_value={val} revm_state={rv} parallel_state={pv} speculative_read={spec} parallel_state_after_speculative_read={qv} reproduced={}", rep as u8);
+        if rv != pv {
+            println!("PROMO-UNEXPECTED the committed history alone already differs from revm");
+            std::process::exit(11);
+        }
+        reproduced |= rep;
+    }
+    reproduced
+}
+
 fn main() {
     let a: Vec<String> = std::env::args().collect();
     match a[1].as_str() {
+        "promo" => {
+            let rep = promo();
+            std::process::exit(if rep { 10 } else { 0 });
+        }
         "gen" => {
             let (seed, count, outdir) = (a[2].parse::<u64>().unwrap(), a[3].parse::<u64>().unwrap(), &a[4]);
             let mut rng = Rng::new(seed ^ 0xC10);
